@@ -63,6 +63,12 @@ def pid_lists(rng, c, pmt_pid):
         out.append(("ign-pat-present-absent", [0, have[0], absent[0]]))
         out.append(("ign-pmt-present-dup", [pmt_pid, have[-1], have[-1], pmt_pid]))
         out.append(("ign-pat-dup-present-absent-dup", [0, 0, have[0], absent[0], absent[0], have[0]]))
+        # requested PIDs beyond 13 bits whose low 13 bits are a stream's PID are NOT that stream (seeded C14-u1: a lookup table
+        # indexed by pid & 0x1fff)
+        out.append(("oor-some", [have[0], have[-1] + 8192]))
+        out.append(("oor-none", [have[0] + 8192, have[-1] + 0x10000]))
+        if len(have) >= 2:
+            out.append(("oor-mixed", [have[1] + 8192, have[0], have[1] + 16384]))
     return out
 
 
@@ -95,7 +101,7 @@ def gen(rng, tier):
             continue
         choices = pid_lists(rng, c, pid)
         if quick:
-            keep = [x for x in choices if x[0] in ("empty", "all", "pat-and-missing") or x[0].startswith("ign-")] + \
+            keep = [x for x in choices if x[0] in ("empty", "all", "pat-and-missing") or x[0].startswith("ign-") or x[0].startswith("oor-")] + \
                    rng.sample(choices, min(6, len(choices)))
         else:
             keep = choices
